@@ -20,6 +20,8 @@ type dop struct {
 	bulk bool
 }
 
+var c09longTopic = "m/t/" + strings.Repeat("u", 130)
+
 func c09alphabet() []dop {
 	S := func(n *dnode) { _ = n }
 	_ = S
@@ -33,7 +35,8 @@ func c09alphabet() []dop {
 	add("sess.DeletePeer(1)", true, func(n *dnode) { n.st.SessionMetadatas().DeletePeer(1) })
 	add("sess.DeletePeer(2)", true, func(n *dnode) { n.st.SessionMetadatas().DeletePeer(2) })
 	add("subs.Create(s1,m/a)", false, func(n *dnode) { n.st.Subscriptions().Create("s1", []byte("m/a"), 0) })
-	add("subs.Create(s1,m/a/b)", false, func(n *dnode) { n.st.Subscriptions().Create("s1", []byte("m/a/b"), 1) })
+	// QoS 3 is what a SUBSCRIBE asking for the reserved value is recorded with (nothing refuses it on the way in)
+	add("subs.Create(s1,m/a/b,qos3)", false, func(n *dnode) { n.st.Subscriptions().Create("s1", []byte("m/a/b"), 3) })
 	add("subs.Create(s2,m/a)", false, func(n *dnode) { n.st.Subscriptions().Create("s2", []byte("m/a"), 1) })
 	add("subs.Create(s2,m/+)", false, func(n *dnode) { n.st.Subscriptions().Create("s2", []byte("m/+"), 2) })
 	add("subs.Delete(s1,m/a)", false, func(n *dnode) { n.st.Subscriptions().Delete("s1", []byte("m/a")) })
@@ -46,10 +49,11 @@ func c09alphabet() []dop {
 	add("subs.DeletePeer(1)", true, func(n *dnode) { n.st.Subscriptions().DeletePeer(1) })
 	add("subs.DeletePeer(2)", true, func(n *dnode) { n.st.Subscriptions().DeletePeer(2) })
 	add("topics.Set(m/t,x)", false, func(n *dnode) { n.st.Topics().Set(pub("m/t", "x")) })
-	add("topics.Set(m/t,y)", false, func(n *dnode) { n.st.Topics().Set(pub("m/t", "y")) })
-	add("topics.Set(m/t/u,x)", false, func(n *dnode) { n.st.Topics().Set(pub("m/t/u", "x")) })
+	// a 300-byte payload (a small status document) and a 134-byte topic: entries whose encoding needs multi-byte lengths
+	add("topics.Set(m/t,y*300)", false, func(n *dnode) { n.st.Topics().Set(pub("m/t", strings.Repeat("y", 300))) })
+	add("topics.Set(m/t/u*130,x)", false, func(n *dnode) { n.st.Topics().Set(pub(c09longTopic, "x")) })
 	add("topics.Delete(m/t)", false, func(n *dnode) { n.st.Topics().Delete([]byte("m/t")) })
-	add("topics.Delete(m/t/u)", false, func(n *dnode) { n.st.Topics().Delete([]byte("m/t/u")) })
+	add("topics.Delete(m/t/u*130)", false, func(n *dnode) { n.st.Topics().Delete([]byte(c09longTopic)) })
 	return ops
 }
 
